@@ -53,3 +53,6 @@ derived("""
 /-- fixed output buffer of `Base64Decoder` -/
 def base64DecoderOutCap : Nat := base64DecoderBufSize / base64DecoderOutDiv * base64DecoderOutMul
 """)
+
+item("maxEmbeddedSignatureDepth", "src/packet/signature/de.rs", r"const MAX_EMBEDDED_SIGNATURE_DEPTH: usize = (\d+);",
+     "signature/de.rs MAX_EMBEDDED_SIGNATURE_DEPTH (nesting cap of Embedded Signature subpackets)")
